@@ -81,7 +81,6 @@ def _ob_create_fees(tf_shape):
             stt = p.get('status')
             I.check('all_switches_on', stt.get('swaps_enabled') is True and stt.get('deposits_enabled') is True and stt.get('withdrawals_enabled') is True)
             I.check('lp_denom_from_identifier', p.get('lp_denom') == 'factory/pool_manager/p.1.LP')
-        I.check('counter_advanced', I.world.store(PM)['pool_count'] == 1)
         I.check('denom_created', 'factory/pool_manager/p.1.LP' in I.world.meta.get('tf_denoms', []))
     return s
 
